@@ -26,6 +26,7 @@ import (
 	"bytes"
 	"encoding/hex"
 	"errors"
+	"math"
 	"net"
 	"strconv"
 )
@@ -176,14 +177,14 @@ func (m *Message) writeValue(b *bytes.Buffer, i, j int) error {
 		b.WriteString(strconv.FormatInt(int64(m.DataSets[i][j].Value.(int32)), 10))
 	case int64:
 		b.WriteString(strconv.FormatInt(m.DataSets[i][j].Value.(int64), 10))
+	case bool:
+		b.WriteString(strconv.FormatBool(m.DataSets[i][j].Value.(bool)))
 	case float32:
-		b.WriteString(strconv.FormatFloat(float64(m.DataSets[i][j].Value.(float32)), 'E', -1, 32))
+		writeFloat(b, float64(m.DataSets[i][j].Value.(float32)), 32)
 	case float64:
-		b.WriteString(strconv.FormatFloat(m.DataSets[i][j].Value.(float64), 'E', -1, 64))
+		writeFloat(b, m.DataSets[i][j].Value.(float64), 64)
 	case string:
-		b.WriteByte('"')
-		b.WriteString(m.DataSets[i][j].Value.(string))
-		b.WriteByte('"')
+		writeString(b, m.DataSets[i][j].Value.(string))
 	case net.IP:
 		b.WriteByte('"')
 		b.WriteString(m.DataSets[i][j].Value.(net.IP).String())
@@ -201,4 +202,36 @@ func (m *Message) writeValue(b *bytes.Buffer, i, j int) error {
 	}
 
 	return nil
+}
+
+// writeFloat writes a JSON number; NaN and infinities have no JSON number form and are written as strings
+func writeFloat(b *bytes.Buffer, f float64, bitSize int) {
+	if math.IsNaN(f) || math.IsInf(f, 0) {
+		b.WriteByte('"')
+		b.WriteString(strconv.FormatFloat(f, 'E', -1, bitSize))
+		b.WriteByte('"')
+		return
+	}
+	b.WriteString(strconv.FormatFloat(f, 'E', -1, bitSize))
+}
+
+// writeString writes a JSON string: quotation mark, backslash and control characters are escaped,
+// octets that are not valid UTF-8 become U+FFFD
+func writeString(b *bytes.Buffer, s string) {
+	const hexDigits = "0123456789abcdef"
+	b.WriteByte('"')
+	for _, r := range s {
+		switch {
+		case r == '"' || r == '\\':
+			b.WriteByte('\\')
+			b.WriteByte(byte(r))
+		case r < 0x20:
+			b.WriteString("\\u00")
+			b.WriteByte(hexDigits[r>>4])
+			b.WriteByte(hexDigits[r&0xf])
+		default:
+			b.WriteRune(r)
+		}
+	}
+	b.WriteByte('"')
 }
